@@ -112,6 +112,11 @@ func (f *localFileEntryFactory) Create(name string, state FileState) (FileEntry,
 	if name != filepath.Clean(name) {
 		return nil, ErrInvalidName
 	}
+	// A cleaned relative name leaves the state directory only as ".." or with a
+	// "../" prefix; "." is the state directory itself. Neither can be an entry.
+	if name == "." || name == ".." {
+		return nil, ErrInvalidName
+	}
 	if strings.HasPrefix(name, "/") || strings.HasSuffix(name, "/") || strings.HasPrefix(name, "../") {
 		return nil, ErrInvalidName
 	}
